@@ -141,8 +141,8 @@ def apply_tiff_predictor(
     buf: List[int] = []
     for scanline_i in range(0, len(data), nbytes):
         raw: List[int] = []
-        for i in range(nbytes):
-            new_value = data[scanline_i + i]
+        # the last row may be shorter than a full row
+        for i, new_value in enumerate(data[scanline_i : scanline_i + nbytes]):
             if i >= bpp:
                 new_value += raw[i - bpp]
                 new_value %= 256
@@ -272,7 +272,7 @@ def parse_rect(o: Any) -> Rect:
     try:
         (x0, y0, x1, y1) = o
         return float(x0), float(y0), float(x1), float(y1)
-    except (ValueError, TypeError):
+    except (ValueError, TypeError, OverflowError):
         raise PDFValueError("Could not parse rectangle")
 
 
